@@ -164,7 +164,15 @@ P15 = {   # top-level declarations are in scope throughout their module: uses th
             ('types.oal', 0, 4, 'base', 'decl', 'lib.base'), ('types.oal', 0, 28, 'later', 'use', 'lib.later'), ('types.oal', 1, 4, 'later', 'decl', 'lib.later')],
     "nonident": [("main.oal", 1, 24)],
 }
-PROGRAMS = {"uses-before-the-declaration": P15, "declarations-over-several-lines-mid-line": P14, "qualifier-spelled-like-a-member": P13, "two-parameters-of-one-name": P12, "built-in-function-in-use": P11, "adjacent-identifier-tokens": P10, "uses-at-the-start-of-a-line": P9, "one-name-three-roles": P8, "modules-in-sub-directories": P7, "unqualified-import": P5, "nested-same-name-binders": P6, "single-module": P1, "two-modules": P2, "shadowing-and-reference": P3, "sibling-modules-same-shape": P4}
+P16 = {   # characters of every UTF-8 width on the lines above the cursor (comments, annotations, a path segment); CRLF in the module
+    "files": {'main.oal': '// Catalogue d\u2019\u00e9t\u00e9 \u2014 entr\u00e9es du r\u00e9pertoire \U0001F4D6\nuse "lib.oal" as lib;\n/* \u4e2d\u6587 */ let entry = { \'item lib.item, \'n num };\n# description: "d\u00e9j\u00e0 vu \U0001F600"\nlet page = [entry];\nres /\u00e9 on get -> <page> :: <status=404, lib.item>;\n',
+              'lib.oal': "// \u00e9l\u00e9ments\r\nlet item = { 'k str }; // \u2014\r\nlet other = item;\r\n"},
+    "occ": [('main.oal', 1, 17, 'lib', 'qdecl', 'q'), ('main.oal', 2, 13, 'entry', 'decl', 'entry'), ('main.oal', 2, 29, 'lib', 'quse', 'q'), ('main.oal', 2, 33, 'item', 'use', 'lib.item'),
+            ('main.oal', 4, 4, 'page', 'decl', 'page'), ('main.oal', 4, 12, 'entry', 'use', 'entry'), ('main.oal', 5, 18, 'page', 'use', 'page'), ('main.oal', 5, 40, 'lib', 'quse', 'q'),
+            ('main.oal', 5, 44, 'item', 'use', 'lib.item'), ('lib.oal', 1, 4, 'item', 'decl', 'lib.item'), ('lib.oal', 2, 4, 'other', 'decl', 'lib.other'), ('lib.oal', 2, 12, 'item', 'use', 'lib.item')],
+    "nonident": [("main.oal", 2, 37), ("main.oal", 5, 48)],
+}
+PROGRAMS = {"wide-characters-above-the-cursor": P16, "uses-before-the-declaration": P15, "declarations-over-several-lines-mid-line": P14, "qualifier-spelled-like-a-member": P13, "two-parameters-of-one-name": P12, "built-in-function-in-use": P11, "adjacent-identifier-tokens": P10, "uses-at-the-start-of-a-line": P9, "one-name-three-roles": P8, "modules-in-sub-directories": P7, "unqualified-import": P5, "nested-same-name-binders": P6, "single-module": P1, "two-modules": P2, "shadowing-and-reference": P3, "sibling-modules-same-shape": P4}
 
 
 def relname(uri, root):
@@ -253,7 +261,7 @@ def run(rdir, want=("definition", "references", "rename")):
         files = dict(P["files"])
         for n, t in list(files.items()) + [("oal.toml", OAL_TOML)]:
             os.makedirs(os.path.dirname(os.path.join(root, n)), exist_ok=True)
-            with open(os.path.join(root, n), "w") as f:
+            with open(os.path.join(root, n), "w", encoding="utf-8", newline="") as f:
                 f.write(t)
         # original and renamed programs are compiled at the same location (implicit component names hash the URL)
         cdir = os.path.join(root, "compile")
